@@ -1083,7 +1083,25 @@ class RaceHarness(Harness):
                 got[key][d["name"]] += 1
         sleepers = {t["name"] for _, _, t in leaf_tasks(schedule) if t["op"] == "sleep" or (t["op"] == "composite" and not any(l["operation-type"] == "raw-request" for l in composite_leaves(t["requests"]).values()))}
         got = {k: v for k, v in got.items() if k[0] not in sleepers}
-        # a composite request yields one service_time record for itself plus one per sub-request
+        # a composite request yields one service_time record for itself plus one per sub-request, each under the name and type of
+        # its own sub-request
+        if not (knobs.get("downsample", 1) > 1 or knobs.get("queue_size")):
+            for _, _, t in leaf_tasks(schedule):
+                if t["op"] != "composite":
+                    continue
+                leaves = composite_leaves(t["requests"])
+                for (task, client), n in expected.items():
+                    if task != t["name"] or not n:
+                        continue
+                    for lname, leaf in leaves.items():
+                        have = [d for d in rc_docs if d["name"] == "service_time" and d.get("task") == task and d["meta"].get("client_id") == client and d.get("operation") == lname]
+                        if len(have) != n:
+                            bad("records", "dependent-timing-operation", f"task {task} client {client}: {n} composite requests were executed but {len(have)} service_time records carry the name of sub-request {lname} ({sorted({str(d.get('operation')) for d in rc_docs if d['name'] == 'service_time' and d.get('task') == task})} occur)")
+                            return
+                        wrong = [d.get("operation-type") for d in have if d.get("operation-type") != leaf["operation-type"]]
+                        if wrong:
+                            bad("records", "dependent-timing-operation-type", f"task {task} client {client}: records of sub-request {lname} ({leaf['operation-type']}) carry operation-type {sorted(set(map(str, wrong)))}")
+                            return
         for key, dep in info["expected_dependent"].items():
             if key in got and "service_time" in got[key]:
                 have_dep = got[key]["service_time"] - got[key].get("latency", 0)
